@@ -108,11 +108,15 @@ impl SignalSystem for Sys {
 }
 
 pub(crate) fn now<F: Future>(f: F) -> F::Output {
-    let mut f = pin!(f);
-    let mut cx = Context::from_waker(Waker::noop());
+    // The future is never dropped: once it has completed, its drop glue would still be explored
+    // for every suspension state (CBMC cannot see that the generator is in its final state), and
+    // those states own errors, fields and locations with recursive drop glue.
+    let mut f = std::mem::ManuallyDrop::new(f);
+    let mut f = unsafe { std::pin::Pin::new_unchecked(&mut *f) };
+    let mut cx = std::task::Context::from_waker(std::task::Waker::noop());
     match f.as_mut().poll(&mut cx) {
-        Poll::Ready(v) => v,
-        Poll::Pending => panic!("stub system futures are always ready"),
+        std::task::Poll::Ready(v) => v,
+        std::task::Poll::Pending => panic!("stub system futures are always ready"),
     }
 }
 
